@@ -42,12 +42,12 @@ NEG_INT_REGEX = re.compile(
 
 # Pattern to recognize a symbol value
 SYMBOL_REGEX = re.compile(
-    r"^(?P<value>[a-zA-Z\d@]+)$"
+    r"^(?P<value>[\w@]+)$"
 )
 
 # Patten to recognize an expression
 EXPRESSION_REGEX = re.compile(
-    r"^(?P<left>[$]*\w+)(?P<operation>[+\-/*])(?P<right>[$]*\w+)$"
+    r"^(?P<left>[$]*[\w@]+)(?P<operation>[+\-/*])(?P<right>[$]*[\w@]+)$"
 )
 
 # C L A S S E S  ##############################################################
